@@ -19,6 +19,78 @@ from cxxscan import ScanError
 from translate import TranslateError, HEADER, read
 
 F = "include/iora/network/http_client.hpp"
+F_POOL = "include/iora/network/http_client_pool.hpp"
+CXX_KEYWORDS = {"if", "while", "for", "switch", "catch", "return", "sizeof", "decltype", "alignof", "static_assert", "noexcept", "throw",
+                "operator", "defined", "alignas", "typeid", "new", "delete"}
+
+
+def function_defs(src):
+    """[(name, body_start, body_end)] of every `name(params) [const|noexcept|override|-> T|: inits] { ... }` in comment-stripped src
+    (functions, constructors, lambdas are NOT included: a lambda has no name and belongs to the function around it)."""
+    out = []
+    for fm in re.finditer(r"\b([A-Za-z_~]\w*)\s*\(", src):
+        name = fm.group(1)
+        if name in CXX_KEYWORDS:
+            continue
+        try:
+            p1 = _match_paren(src, fm.end() - 1)
+        except ScanError:
+            continue
+        k = p1 + 1
+        m2 = re.match(r"(\s|const\b|noexcept\b|override\b|final\b|mutable\b|->\s*[\w:<>,\s&*]+?(?=\s*\{))*", src[k:])
+        k += m2.end() if m2 else 0
+        if k < len(src) and src[k] == ":" and not src.startswith("::", k):
+            # constructor initialiser list: skip to the first `{` that is not inside parentheses / a brace initialiser of a member
+            d = 0
+            j = k + 1
+            while j < len(src):
+                ch = src[j]
+                if ch == "(":
+                    d += 1
+                elif ch == ")":
+                    d -= 1
+                elif ch == "{" and d == 0:
+                    prev = src[:j].rstrip()
+                    if prev and (prev[-1] == ")" or prev[-1] == "}"):
+                        break
+                    j = cxxscan.match_brace(src, j)
+                elif ch == ";" and d == 0:
+                    break
+                j += 1
+            k = j
+        if k < len(src) and src[k] == "{":
+            # a call followed by a block (`foo(x) {`) does not occur in C++ outside definitions and control statements
+            out.append((name, k + 1, cxxscan.match_brace(src, k)))
+    return out
+
+
+def enclosing_function(defs, pos):
+    best = None
+    for name, b0, b1 in defs:
+        if b0 <= pos < b1 and (best is None or b1 - b0 < best[2] - best[1]):
+            best = (name, b0, b1)
+    return best[0] if best else None
+
+
+def call_sites(src, callee):
+    """positions of every textual CALL of `callee` (not its definition, not a member of another object)"""
+    defs = function_defs(src)
+    def_starts = set()
+    for m in re.finditer(r"\b%s\s*\(" % re.escape(callee), src):
+        for name, b0, b1 in defs:
+            if name == callee:
+                try:
+                    p1 = _match_paren(src, m.end() - 1)
+                except ScanError:
+                    continue
+                if p1 < b0 and not re.search(r"[;{}]", src[p1 + 1:b0 - 1]):
+                    def_starts.add(m.start())
+    out = []
+    for m in re.finditer(r"(?<![\w.>:])%s\s*\(" % re.escape(callee), src):
+        if m.start() in def_starts:
+            continue
+        out.append((m.start(), enclosing_function(defs, m.start())))
+    return out
 
 
 # ------------------------------------------------------------------ small structural helpers (comment-stripped text)
@@ -204,7 +276,13 @@ def read_transport(fx):
 def gen(repo):
     _REPO[0] = repo
     src = read(repo, F)
-    facts = extract(src)
+    try:
+        facts = extract(src)
+    except TranslateError:
+        raise
+    except (ValueError, IndexError, KeyError, AttributeError, TypeError, ScanError) as e:
+        # e.g. `str.index` on a fragment that is no longer there: a source shape the unit does not recognise is a verdict, not a crash
+        raise TranslateError("a source shape the unit does not recognise (%s: %s)" % (type(e).__name__, str(e)[:200]))
     return "IoraModel/Gen/HttpRetry.lean", render(facts)
 
 
@@ -302,11 +380,47 @@ def extract(src):
     if not entries:
         raise TranslateError("no public entry point found")
     fx["entries"] = entries
+    # ---- EVERY call site of performRequest / executeRequest (and of every entry point) in the file: the caller of executeRequest is
+    # performRequest alone; a caller of performRequest — or of an entry point — is itself a row of the table above (whose body was
+    # checked: one call, no try/catch, no loop, the caller's budget). Anything else is a second path to the wire: a wrapper that
+    # catches and calls again, an overload without a budget, a helper that re-issues the request.
+    row = {e[0]: e for e in entries}
+    callers = []
+    for pos, fn in call_sites(src, "executeRequest"):
+        if fn != "performRequest":
+            raise TranslateError("executeRequest is called from `%s` (only performRequest may call it: every other call bypasses the retry discipline)" % fn)
+        callers.append((fn, "executeRequest"))
+    for pos, fn in call_sites(src, "performRequest"):
+        if fn not in row or row[fn][1] != "performRequest":
+            raise TranslateError("performRequest is called from `%s`, which is not a checked public entry point (a function with an `int retries` "
+                                 "parameter whose body issues exactly one request): a wrapper that re-issues the request would double-submit" % fn)
+        callers.append((fn, "performRequest"))
+    for name in entry_names:
+        for pos, fn in call_sites(src, name):
+            if fn not in row or row[fn][1] != name:
+                raise TranslateError("the entry point %s is called from `%s`, which is not a checked public entry point delegating to it" % (name, fn))
+    if len(callers) != len(set(callers)):
+        raise TranslateError("a function contains two calls of performRequest/executeRequest: %s" % sorted(c for c in callers if callers.count(c) > 1))
+    try:
+        pool = read(_REPO[0], F_POOL) if _REPO[0] else ""
+    except TranslateError:
+        pool = ""
+    for callee in ("performRequest", "executeRequest"):
+        if re.search(r"\b%s\s*\(" % callee, pool):
+            raise TranslateError("%s calls %s directly" % (F_POOL, callee))
+    fx["requestCallers"] = callers
     fx.setdefault("failsOnNon2xx", [])
     if not re.search(r"bool\s+success\s*\(\s*\)\s*const\s*\{\s*return\s+statusCode\s*>=\s*200\s*&&\s*statusCode\s*<\s*300\s*;\s*\}", src):
         raise TranslateError("Response::success() is not `statusCode >= 200 && statusCode < 300`")
     # ---- performRequest
     pb = cxxscan.function_body(src, "performRequest")
+    npb = norm(pb)
+    if not npb.startswith("{std::lock_guard<std::mutex>lock(_mutex);ensureInitialized();}") or npb.count("ensureInitialized()") != 1:
+        raise TranslateError("performRequest: does not start with `{ std::lock_guard<std::mutex> lock(_mutex); ensureInitialized(); }` (once, before the loop)")
+    eith = thrown_types(cxxscan.function_body(src, "ensureInitialized"))
+    if eith != ["std::runtime_error"]:
+        raise TranslateError("ensureInitialized: throws %s (expected exactly one throw std::runtime_error: transport start failure)" % eith)
+    fx["startFailThrow"] = eith[0]
     if not re.search(r"\bint\s+attempt\s*=\s*0\s*;\s*while\s*\(\s*true\s*\)\s*\{", pb):
         raise TranslateError("performRequest: `int attempt = 0; while (true) {` not found")
     tbs = try_blocks(pb)
@@ -389,9 +503,23 @@ def extract(src):
     fx["leaseFailThrow"] = "std::runtime_error"
     if nl.index("if(_closing)") > nl.index("_leasedHosts.insert(hostPort);"):
         raise TranslateError("acquireLease: insert before the _closing test")
+    if not nl.startswith("std::unique_lock<std::mutex>lock(_mutex);"):
+        raise TranslateError("acquireLease: the first statement is not `std::unique_lock<std::mutex> lock(_mutex);` (predicate, wait and insert must be one critical section)")
+    if nl.count("_mutex") != 1 or "lock.unlock()" in nl or "lock.release()" in nl:
+        raise TranslateError("acquireLease: _mutex is released or re-taken inside the function")
     rb = cxxscan.function_body(src, "releaseLease")
-    if "_leasedHosts.erase(hostPort);" not in norm(rb) or "notify_all" not in rb:
-        raise TranslateError("releaseLease: erase + notify_all not recognised")
+    if norm(rb) != "{std::lock_guard<std::mutex>lock(_mutex);_leasedHosts.erase(hostPort);}_cv.notify_all();":
+        raise TranslateError("releaseLease: body is not `{ std::lock_guard<std::mutex> lock(_mutex); _leasedHosts.erase(hostPort); } _cv.notify_all();` "
+                             "(the erase must happen under _mutex, else a waiter can miss the wake-up or read the set while it changes)")
+    # every other access to the cache / the lease set is under _mutex too: the functions that touch them start a guarded block first
+    for fn_, frag in (("dropConnection", "std::lock_guard<std::mutex>lock(_mutex);autoit=_connections.find(hostPort);"),
+                      ("cleanup", "std::lock_guard<std::mutex>lock(_mutex);")):
+        if not norm(cxxscan.function_body(src, fn_)).startswith(frag):
+            raise TranslateError("%s: does not start with a lock_guard on _mutex" % fn_)
+    if na.count("std::lock_guard<std::mutex>lock(_mutex);") != 2 or \
+       not re.search(r"\{std::lock_guard<std::mutex>lock\(_mutex\);autoit=_connections\.find\(hostPort\);", na) or \
+       not re.search(r"\{std::lock_guard<std::mutex>lock\(_mutex\);_connections\[hostPort\]=ConnectionEntry\{", na):
+        raise TranslateError("acquireConnection: the cache look-up and the publication are not each inside a lock_guard block on _mutex")
     rel = cxxscan.function_body(src, "release")
     if "_owner->releaseLease(_hostPort);" not in norm(rel):
         raise TranslateError("ConnectionLease::release does not call releaseLease")
@@ -402,6 +530,55 @@ def extract(src):
     if pth != ["std::invalid_argument"]:
         raise TranslateError("parseUrl: throws %s (expected std::invalid_argument)" % pth)
     fx["urlFailThrow"] = pth[0]
+    npu = norm(pu)
+    if "parsed.port=static_cast<std::uint16_t>(std::stoi(match[3].str()));" not in npu:
+        raise TranslateError("parseUrl: the port is not `static_cast<std::uint16_t>(std::stoi(match[3].str()))`")
+    dm_ = re.search(r'parsed\.port=\(parsed\.scheme=="https"\)\?(\d+):(\d+);', npu)
+    if not dm_:
+        raise TranslateError("parseUrl: default ports not recognised")
+    fx["defaultPortHttps"], fx["defaultPortHttp"] = int(dm_.group(1)), int(dm_.group(2))
+    fx["portParseMax"] = 2 ** 31 - 1          # std::stoi returns `int` (32 bits on every supported ABI) and throws std::out_of_range beyond it
+    fx["portCastModulus"] = 2 ** 16           # static_cast<std::uint16_t>
+    fx["portRangeThrow"] = "std::out_of_range"
+    if re.search(r"\btry\b|\bcatch\b", pu):
+        raise TranslateError("parseUrl: contains try/catch (the model lets std::stoi's exception escape)")
+    # ---- cleanup(): its steps in source order; `_closing` is never reset
+    cb_ = norm(cxxscan.function_body(src, "cleanup"))
+    steps = []
+    for frag, nm in (("std::lock_guard<std::mutex>lock(_mutex);", "lock"), ("_closing=true;", "closing"), ("_cv.notify_all();", "notify_all"),
+                     ("_transport->close(entry.id);", "closeAll"), ("_transport->stop();", "stop"), ("_connections.clear();", "clear"),
+                     ("_dnsClient->stop();", "dnsStop")):
+        p_ = cb_.find(frag)
+        if p_ >= 0:
+            steps.append((p_, nm))
+    fx["cleanupSteps"] = [nm for _, nm in sorted(steps)]
+    if "closeAll" in fx["cleanupSteps"] and "for(constauto&[hostPort,entry]:_connections){_transport->close(entry.id);}" not in cb_:
+        raise TranslateError("cleanup: the close is not inside `for (const auto &[hostPort, entry] : _connections)`")
+    if re.search(r"_closing\s*=\s*false", src):
+        raise TranslateError("_closing is reset somewhere (the model treats it as permanent)")
+    if norm(lb).count("_closing") != 2:
+        raise TranslateError("acquireLease: `_closing` must occur exactly twice (in the predicate and in the test after the wait)")
+    # ---- responseRequestsClose: the loop skeleton (the Lean `tokenLoop` mirrors exactly this; samples alone do not tie a bound such as `elements++ < 6`)
+    rc_ = cxxscan.function_body(src, "responseRequestsClose")
+    nrc = norm(rc_)
+    pos_ = -1
+    for frag in ('autoit=resp.headers.find("Connection");', "if(it!=resp.headers.end()){", "boolsawKeepAlive=false;", "conststd::string&value=it->second;",
+                 "std::size_tpos=0;", "while(pos<=value.size()){", "std::size_tcomma=value.find(',',pos);",
+                 "std::size_tend=(comma==std::string::npos)?value.size():comma;", "std::size_ta=value.find_first_not_of(",
+                 "std::size_tb=value.find_last_not_of(", "if(a!=std::string::npos&&a<end&&b!=std::string::npos&&b>=a){",
+                 "std::stringtoken=value.substr(a,b-a+1);", "std::transform(token.begin(),token.end(),token.begin(),",
+                 "CaseInsensitiveCompare::asciiLower(", 'if(token=="close"){returntrue;}', 'if(token=="keep-alive"){sawKeepAlive=true;}',
+                 "}if(comma==std::string::npos){break;}pos=comma+1;}", "if(sawKeepAlive){returnfalse;}}", 'returnresp.httpVersion=="1.0";'):
+        p_ = nrc.find(frag, pos_ + 1)
+        if p_ < 0:
+            raise TranslateError("responseRequestsClose: expected fragment %r not found in order (the loop skeleton changed)" % frag)
+        pos_ = p_
+    if not nrc.endswith('returnresp.httpVersion=="1.0";') or len(re.findall(r"\bbreak\b", rc_)) != 1 or \
+       len(re.findall(r"\b(while|for|do)\b", rc_)) != 1 or re.search(r"\b(continue|goto)\b", rc_) or len(re.findall(r"\breturn\b", rc_)) != 4:
+        raise TranslateError("responseRequestsClose: extra loop / jump / return")
+    if not re.search(r'find_first_not_of\(\s*" \\t"\s*,\s*pos\s*\)', rc_) or \
+       not re.search(r'find_last_not_of\(\s*" \\t"\s*,\s*end\s*==\s*0\s*\?\s*0\s*:\s*end\s*-\s*1\s*\)', rc_):
+        raise TranslateError('responseRequestsClose: the trim arguments are not (" \\t", pos) and (" \\t", end == 0 ? 0 : end - 1)')
     # ---- Config defaults
     cm = re.search(r"Config\s*\(\s*\)\s*:(.*?)\{", src, re.S)
     if not cm:
@@ -432,6 +609,9 @@ def extract(src):
        "else{_cv.wait(lock,available);}" not in nl or len(re.findall(r"\bwait_for\b|\bwait_until\b", lb)) != 1:
         raise TranslateError("acquireLease: the lease wait is not `wait_for(lock, _config.leaseAcquireTimeout, available)` (0 = untimed wait)")
     waits.append(("lease", "leaseAcquireTimeout"))
+    fx["leaseWaitForm"] = "wait_for_pred"       # the predicate overload: ONE absolute deadline for all wake-ups ([thread.condition.condvar])
+    if len(re.findall(r"\b(while|for|do)\b", re.sub(r'"[^"\\]*(?:\\.[^"\\]*)*"', '""', lb))) != 0:
+        raise TranslateError("acquireLease: contains a loop (the model's wait is the library's predicate loop with one absolute deadline)")
     na = norm(ab)
     if 'autotimeout=(resolvedHost=="127.0.0.1"||resolvedHost=="::1")?std::min(_config.connectTimeout,std::chrono::milliseconds(%d)):_config.connectTimeout;' % fx["localConnectCapMs"] not in na or \
        "_transport->connectSync(resolvedHost,parsedUrl.port,tlsMode,timeout);" not in na or len(re.findall(r"\btimeout\b", ab)) != 2:
@@ -443,6 +623,24 @@ def extract(src):
         raise TranslateError("executeRequest: receiveSync's time-out is not `sendTimeout` = _config.requestTimeout (assigned once)")
     waits.append(("receive", "requestTimeout"))
     waits.append(("probe", "zero"))     # residualDataPending: checked with the reuse decision
+    if not re.search(r"_transport->sendSync\(sessionId,.*?,sendTimeout\);", norm(eb)):
+        raise TranslateError("executeRequest: sendSync is not bounded by `sendTimeout` = _config.requestTimeout")
+    waits.append(("send", "requestTimeout"))
+    # the DNS look-up of a host NAME: DnsClient's own defaults (no HttpClient::Config value reaches it); literal IPv4 addresses and
+    # `localhost` never get there; a failure falls through to connectSync with the literal name
+    rh = norm(cxxscan.function_body(src, "resolveHostAddress"))
+    pos_ = -1
+    for frag in ("if(isIPAddress(parsedUrl.host)){returnparsedUrl.host;}", 'if(parsedUrl.host=="localhost"){return"127.0.0.1";}',
+                 "try{autoresult=_dnsClient->resolveHost(parsedUrl.host);", "catch(conststd::exception&){}", "returnparsedUrl.host;"):
+        p_ = rh.find(frag, pos_ + 1)
+        if p_ < 0:
+            raise TranslateError("resolveHostAddress: expected fragment %r not found in order" % frag)
+        pos_ = p_
+    if "_dnsClient=std::make_unique<DnsClient>();" not in norm(cxxscan.function_body(src, "ensureInitialized")):
+        raise TranslateError("ensureInitialized: the DnsClient is not default-constructed (its time-outs are no longer DnsClient's defaults)")
+    if calls_in(ab, ["resolveHostAddress"]) != ["resolveHostAddress"] or na.index("resolveHostAddress(parsedUrl)") > na.index("_transport->connectSync("):
+        raise TranslateError("acquireConnection: resolveHostAddress must be called exactly once, before connectSync")
+    waits.append(("dns", "dnsClientDefaults"))
     fx["timedWaits"] = waits
     bm = re.search(r"\bchar\s+buffer\s*\[\s*(\d+)\s*\]\s*;", eb)
     if not bm or "std::size_tlen=sizeof(buffer);" not in norm(eb):
@@ -562,9 +760,21 @@ def extract_execute(src):
     # assembly of the request text and the sendSync call. (What can still escape here — std::bad_alloc while building the string,
     # std::logic_error from sendSync when called on the client's own I/O thread, which runs no user code — is listed as an assumption.)
     left = mid
+    # a log line is not a failure exit (building its text can only throw what building the request text can: see `assumptions`)
+    while True:
+        lm_ = re.search(r"iora::core::Logger::(?:trace|debug|info|warning|error)\s*\(", left)
+        if not lm_:
+            break
+        pe_ = _match_paren(left, lm_.end() - 1)
+        sc_ = _skip_ws(left, pe_ + 1)
+        if sc_ >= len(left) or left[sc_] != ";":
+            break
+        left = left[:lm_.start()] + " " + left[sc_ + 1:]
     for pat in (r"std::ostringstream\s+request\s*;", r"for\s*\(\s*const\s+auto\s*&\s*\[\s*name\s*,\s*value\s*\]\s*:\s*headers\s*\)\s*\{[^{}]*\}",
                 r"if\s*\(\s*!\s*body\.empty\(\)\s*\)\s*\{[^{}]*\}", r"request\s*<<[^;]*;", r"std::string\s+requestStr\s*=\s*request\.str\(\)\s*;",
-                r"auto\s+sendResult\s*=\s*_transport->sendSync\s*\([^;]*;", r"if\s*\(\s*sendResult\.isErr\(\)\s*\)\s*\{[^{}]*\}"):
+                r"auto\s+sendResult\s*=\s*_transport->sendSync\s*\([^;]*;", r"if\s*\(\s*sendResult\.isErr\(\)\s*\)\s*\{[^{}]*\}",
+                # a log line is not a failure exit (building its text can only throw what building the request text can: see `assumptions`)
+                r"iora::core::Logger::(?:trace|debug|info|warning|error)\s*\((?:[^;()]|\([^()]*\))*\)\s*;"):
         left = re.sub(pat, " ", left, flags=re.S)
     # plain local declarations (no call except std::max on configuration values)
     rest = []
@@ -758,7 +968,19 @@ def render(fx):
     t += "def reusableAtoms : List String := %s\n" % lean_strs(fx["reusableAtoms"])
     t += "/-- Config() defaults -/\n"
     t += "def connectTimeoutMs : Nat := %d\ndef requestTimeoutMs : Nat := %d\ndef leaseAcquireTimeoutMs : Nat := %d\n" % (fx["connectTimeoutMs"], fx["requestTimeoutMs"], fx["leaseAcquireTimeoutMs"])
-    t += "def localConnectCapMs : Nat := %d\ndef maxResponseBytes : Nat := %d\ndef idleTimeoutS : Nat := %d\n" % (fx["localConnectCapMs"], fx["maxResponseBytes"], fx["idleTimeoutS"])
+    t += "def localConnectCapMs : Nat := %d\n" % fx["localConnectCapMs"]
     t += "def reuseConnectionsDefault : Bool := %s\n" % lean_bool(fx["reuseDefault"])
+    t += "/-- parseUrl: default ports, the port conversion `static_cast<std::uint16_t>(std::stoi(...))` (stoi: `int`, throws std::out_of_range beyond it; the cast wraps) -/\n"
+    t += "def defaultPortHttp : Nat := %d\ndef defaultPortHttps : Nat := %d\ndef portParseMax : Nat := %d\ndef portCastModulus : Nat := %d\n" % (
+        fx["defaultPortHttp"], fx["defaultPortHttps"], fx["portParseMax"], fx["portCastModulus"])
+    t += "def portRangeThrow : String := \"%s\"\n" % fx["portRangeThrow"]
+    t += "/-- acquireLease: form of the timed wait (`wait_for_pred` = `_cv.wait_for(lock, _config.leaseAcquireTimeout, available)`: one absolute deadline) -/\n"
+    t += "def leaseWaitForm : String := \"%s\"\n" % fx["leaseWaitForm"]
+    t += "/-- cleanup(): its steps in source order -/\n"
+    t += "def cleanupSteps : List String := %s\n" % lean_strs(fx["cleanupSteps"])
+    t += "/-- performRequest calls ensureInitialized() (under _mutex) before its loop; what that throws when Transport::start() fails -/\n"
+    t += "def startFailThrow : String := \"%s\"\n" % fx["startFailThrow"]
+    t += "/-- EVERY call site of performRequest / executeRequest in http_client.hpp and http_client_pool.hpp: (calling function, callee) -/\n"
+    t += "def requestCallers : List (String × String) := %s\n" % lean_pairs(fx["requestCallers"])
     t += "end Iora.Gen.HttpRetry\n"
     return t
